@@ -1,6 +1,7 @@
 // Crate-side model-based properties: C07 (forest), C08 (membership), C09 (ordered listings, 2.x).
 #pragma once
 #include <algorithm>
+#include <cctype>
 #include <functional>
 
 #include "api_track.hpp"
@@ -96,7 +97,7 @@ struct World
 
 inline std::string gen_crate_name(S& s, Ctx& ctx, World& w)
 {
-    static const std::vector<std::string> pool = {"A", "B", "C", "D", "AA", "BA"};
+    static const std::vector<std::string> pool = {"A", "B", "C", "D", "AA", "BA", "a", "b", "Aa", "A%", "_"};
     switch (s.below(10))
     {
         case 0:
@@ -194,8 +195,31 @@ inline void check_forest(World& w, const std::string& where)
     for (int64_t probe : {int64_t{0}, int64_t{-1}, mx + 1, mx + 1000})
         if (!w.issued_crate_ids.count(probe))
             VF_CHECK(!w.db.crate_by_id(probe), where << ": crate_by_id(" << probe << ") finds a crate that was never created");
-    // I6 by name
+    // I6 by name: the names in use, one unused name, and near misses of the names in use (ASCII case flipped, SQL LIKE wildcards in place
+    // of a character, a trailing blank, a proper prefix): a lookup must match the whole name exactly.
     names.insert("no-such-crate-name");
+    {
+        std::set<std::string> near;
+        size_t budget = 6;  // near misses of at most six names per check, the by-name block is quadratic
+        for (auto& n : names)
+        {
+            if (!budget--)
+                break;
+            std::string f = n;
+            for (auto& ch : f)
+                ch = static_cast<char>(std::islower(static_cast<unsigned char>(ch)) ? std::toupper(static_cast<unsigned char>(ch))
+                                                                                     : std::tolower(static_cast<unsigned char>(ch)));
+            near.insert(f);
+            near.insert("%" + n.substr(1));
+            near.insert("_" + n.substr(1));
+            near.insert(n + " ");
+            if (n.size() > 1)
+                near.insert(n.substr(0, n.size() - 1));
+        }
+        for (auto& n : near)
+            if (valid_crate_name(n))
+                names.insert(n);
+    }
     for (auto& n : names)
     {
         std::vector<int64_t> want;
